@@ -158,6 +158,8 @@ thread_local! {
     static IN_GUARD: std::cell::Cell<bool> = std::cell::Cell::new(false);
 }
 pub static PANICS_SEEN: AtomicU64 = AtomicU64::new(0);
+/// panic messages recorded while the thread's own thread-locals are already gone (calls made from thread-exit destructors)
+static LATE_PANIC: std::sync::Mutex<Option<String>> = std::sync::Mutex::new(None);
 
 pub fn install_panic_hook() {
     std::panic::set_hook(Box::new(|info| {
@@ -178,24 +180,34 @@ pub fn install_panic_hook() {
             "<non-string payload>".into()
         };
         PANICS_SEEN.fetch_add(1, Ordering::Relaxed);
-        if !IN_GUARD.with(|g| g.get()) {
+        if !IN_GUARD.try_with(|g| g.get()).unwrap_or(true) {
             // a panic outside the monitored boundary is a harness error: make it visible
             eprintln!("HARNESS PANIC (outside the panic boundary) at {}: {}", loc, msg);
         }
-        LAST_PANIC.with(|p| *p.borrow_mut() = Some(format!("{} | {}", loc, msg)));
+        let text = format!("{} | {}", loc, msg);
+        if LAST_PANIC.try_with(|p| *p.borrow_mut() = Some(text.clone())).is_err() {
+            if let Ok(mut g) = LATE_PANIC.lock() {
+                *g = Some(text);
+            }
+        }
     }));
 }
 
 pub fn take_panic() -> String {
-    LAST_PANIC.with(|p| p.borrow_mut().take()).unwrap_or_else(|| "? | ?".into())
+    LAST_PANIC
+        .try_with(|p| p.borrow_mut().take())
+        .ok()
+        .flatten()
+        .or_else(|| LATE_PANIC.lock().ok().and_then(|mut g| g.take()))
+        .unwrap_or_else(|| "? | ?".into())
 }
 
 /// Runs `f`, converting a panic into `Err("file:line | message")`.
 #[inline]
 pub fn guard<R>(f: impl FnOnce() -> R) -> Result<R, String> {
-    let prev = IN_GUARD.with(|g| g.replace(true));
+    let prev = IN_GUARD.try_with(|g| g.replace(true)).unwrap_or(true);
     let r = catch_unwind(AssertUnwindSafe(f));
-    IN_GUARD.with(|g| g.set(prev));
+    let _ = IN_GUARD.try_with(|g| g.set(prev));
     match r {
         Ok(r) => Ok(r),
         Err(_) => Err(take_panic()),
@@ -348,9 +360,9 @@ impl Stats {
         }
         self.evals += 1;
         self.cur_evals += 1;
-        let prev = IN_GUARD.with(|g| g.replace(true));
+        let prev = IN_GUARD.try_with(|g| g.replace(true)).unwrap_or(true);
         let r = catch_unwind(AssertUnwindSafe(|| f(self, c)));
-        IN_GUARD.with(|g| g.set(prev));
+        let _ = IN_GUARD.try_with(|g| g.set(prev));
         if r.is_err() {
             let p = take_panic();
             self.panics += 1;
